@@ -350,14 +350,14 @@ Section Gnet.
   Lemma on_traffic_R : forall fuel st inb tail frames,
     Forall good frames -> R st frames (inb ++ tail) -> length inb < fuel ->
     exists fs st' inb' a, on_traffic ok fuel st inb = Ok (fs, st', inb', a) /\
-      ((a = ANone /\ exists rem, frames = fs ++ rem /\ forallb ok fs = true /\
+      ((a = GaNone /\ exists rem, frames = fs ++ rem /\ forallb ok fs = true /\
                                  R st' rem (inb' ++ tail) /\ stuck st' inb') \/
-       (a = AClose /\ exists bad rem, frames = fs ++ bad :: rem /\ forallb ok fs = true /\ ok bad = false)).
+       (a = GaClose /\ exists bad rem, frames = fs ++ bad :: rem /\ forallb ok fs = true /\ ok bad = false)).
   Proof.
     induction fuel as [|fu IH]; intros st inb tail frames Hg HR Hl; [lia|]. cbn [on_traffic].
     destruct (g_iter_R st inb tail frames Hg HR) as [[st' [inb' [E [HR' Hs]]]]|[f [r [st' [inb' [-> [E [Hn [Es Hd]]]]]]]]];
       rewrite E; cbn [bind].
-    - exists [], st', inb', ANone. split; [reflexivity|]. left. split; [reflexivity|]. exists frames. auto.
+    - exists [], st', inb', GaNone. split; [reflexivity|]. left. split; [reflexivity|]. exists frames. auto.
     - inversion Hg as [|? ? Hgf Hgr]; subst.
       destruct (ok f) eqn:Ef.
       + destruct (0 <? length inb') eqn:Ei.
@@ -368,11 +368,11 @@ Section Gnet.
           -- left. split; [reflexivity|]. exists rem. cbn. rewrite Ef, Hok. auto.
           -- right. split; [reflexivity|]. exists bad, rem. cbn. rewrite Ef, Hok. auto.
         * apply Nat.ltb_ge in Ei. assert (inb' = []) as -> by (apply length_zero_nil; lia).
-          exists [f], st', [], ANone. split; [reflexivity|]. left. split; [reflexivity|]. exists r. cbn. rewrite Ef.
+          exists [f], st', [], GaNone. split; [reflexivity|]. left. split; [reflexivity|]. exists r. cbn. rewrite Ef.
           repeat split; auto.
           -- unfold R. rewrite Hn. exact Es.
           -- unfold stuck. now rewrite Hn.
-      + exists [], st', inb', AClose. split; [reflexivity|]. right. split; [reflexivity|]. exists f, r. auto.
+      + exists [], st', inb', GaClose. split; [reflexivity|]. right. split; [reflexivity|]. exists f, r. auto.
   Qed.
 
   Lemma stuck_end st inb frames : Forall good frames -> R st frames (inb ++ []) -> stuck st inb -> frames = [].
@@ -510,3 +510,145 @@ Section Gnet.
     unfold gnet_run. destruct (gnet_feed_safe segs g_init [] I) as [fs [stt [tr E]]]. rewrite E. cbn. eauto.
   Qed.
 End Gnet.
+
+(* ================================================================== (c) writers *)
+Lemma parse_units_stream : forall frames fuel, Forall fits frames -> length frames <= fuel ->
+  parse_units fuel (stream_of frames) = Some frames.
+Proof.
+  induction frames as [|f r IH]; intros fuel Hf Hl; [destruct fuel; reflexivity|].
+  inversion Hf as [|? ? Hff Hfr]; subst. destruct (unit_hd f Hff) as [a [b [Eu El]]].
+  rewrite stream_cons, Eu. destruct fuel as [|fu]; [cbn in Hl; lia|]. cbn [app parse_units]. rewrite El.
+  assert (length (f ++ stream_of r) <? length f = false) as -> by (apply Nat.ltb_ge; rewrite app_length; lia).
+  rewrite skipn_exact, firstn_exact. rewrite IH; auto. cbn in Hl. lia.
+Qed.
+
+Theorem parse_stream_units frames : Forall fits frames -> parse_stream (stream_of frames) = Some frames.
+Proof. intros H. apply parse_units_stream; auto. apply stream_count. Qed.
+
+(* every reachable state of the writers: the octets written are whole units, in the order of the writes,
+   and (written ++ pending) is a rearrangement of the responses started *)
+Lemma wreach_inv started st : wreach started st ->
+  let '(p, o, w) := st in o = stream_of w /\ Permutation (w ++ p) started.
+Proof.
+  induction 1 as [|started p o w b H IH|started p1 b p2 o w H IH].
+  - split; [reflexivity|constructor].
+  - destruct IH as [-> IH]. split; [reflexivity|].
+    apply Permutation_sym. apply Permutation_cons_app. now apply Permutation_sym.
+  - destruct IH as [-> IH]. split.
+    + rewrite stream_app. cbn. now rewrite app_nil_r.
+    + rewrite <- app_assoc. cbn [app]. eapply Permutation_trans; [|exact IH].
+      apply Permutation_app_head. apply Permutation_middle.
+Qed.
+
+Theorem writers_contiguous started p o w :
+  wreach started (p, o, w) -> Forall fits started ->
+  o = stream_of w /\ Permutation (w ++ p) started /\ parse_stream o = Some w.
+Proof.
+  intros H Hf. destruct (wreach_inv _ _ H) as [-> HP]. repeat split; auto.
+  apply parse_stream_units.
+  assert (Forall fits (w ++ p)) as Hw by (eapply Permutation_Forall; [apply Permutation_sym; exact HP|exact Hf]).
+  apply Forall_app in Hw. tauto.
+Qed.
+
+(* the executable scheduler is one run of the small-step system *)
+Lemma write_sched_reach : forall sched started p o w,
+  wreach started (p, o, w) ->
+  exists p' w', wreach started (p', write_sched p sched o, w').
+Proof.
+  induction sched as [|i r IH]; intros started p o w H; cbn [write_sched]; [eauto|].
+  destruct (nth_error p i) as [b|] eqn:E; [|eauto].
+  apply nth_error_split in E. destruct E as [p1 [p2 [-> <-]]].
+  rewrite firstn_exact.
+  assert (skipn (S (length p1)) (p1 ++ b :: p2) = p2) as ->.
+  { replace (S (length p1)) with (length (p1 ++ [b])) by (rewrite app_length; cbn; lia).
+    replace (p1 ++ b :: p2) with ((p1 ++ [b]) ++ p2) by (now rewrite <- app_assoc). apply skipn_exact. }
+  eapply IH. apply wr_write. exact H.
+Qed.
+
+(* ================================================================== (d) the in-flight counter *)
+Section Counter.
+  Variable L : nat.
+
+  Definition cinv (st : cstate) : Prop := c_n st = length (c_fl st) /\ c_n st <= L.
+
+  Lemma remove_one_len q l : 0 < count_nat q l -> length (remove_one q l) = length l - 1.
+  Proof.
+    induction l as [|x r IH]; cbn; [lia|]. destruct (Nat.eqb x q); cbn; [lia|].
+    intros H. rewrite IH by lia. destruct r; cbn in *; lia.
+  Qed.
+
+  Lemma count_remove_one q q' l : 0 < count_nat q' l ->
+    count_nat q (remove_one q' l) = count_nat q l - (if Nat.eqb q' q then 1 else 0).
+  Proof.
+    induction l as [|x r IH]; cbn; [lia|]. destruct (Nat.eqb x q') eqn:E.
+    - apply Nat.eqb_eq in E. subst x. intros _. destruct (Nat.eqb q' q); lia.
+    - intros H. cbn. rewrite IH by lia. destruct (Nat.eqb x q) eqn:E2; [|lia].
+      apply Nat.eqb_eq in E2. subst x. rewrite (Nat.eqb_sym q' q), E. lia.
+  Qed.
+
+  Lemma cstep_inv st e st' o : cinv st -> cstep L st e = Some (st', o) -> cinv st'.
+  Proof.
+    unfold cinv, cstep. intros [H1 H2]. destruct e as [q|q].
+    - destruct (L <? S (c_n st)) eqn:E; intros X; inversion X; subst; cbn.
+      + lia.
+      + apply Nat.ltb_ge in E. lia.
+    - destruct (0 <? count_nat q (c_fl st)) eqn:E; [|discriminate]. apply Nat.ltb_lt in E.
+      intros X; inversion X; subst; cbn. rewrite remove_one_len by exact E. lia.
+  Qed.
+
+  Lemma crun_inv : forall evs st st' o, cinv st -> crun L st evs = Some (st', o) -> cinv st'.
+  Proof.
+    induction evs as [|e r IH]; intros st st' o Hi; cbn.
+    - intros X; inversion X; subst; auto.
+    - destruct (cstep L st e) as [[st1 o1]|] eqn:E; [|discriminate].
+      destruct (crun L st1 r) as [[st2 o2]|] eqn:E2; [|discriminate].
+      intros X; inversion X; subst. eapply IH; [|exact E2]. eapply cstep_inv; eauto.
+  Qed.
+
+  Lemma cinit_inv : cinv c_init.
+  Proof. unfold cinv. cbn. lia. Qed.
+
+  (* beyond the limit: REFUSED at once, and the state (counter included) is unchanged *)
+  Lemma over_limit_refused st q : L < c_n st + 1 -> cstep L st (Arrive q) = Some (st, [ORefused q]).
+  Proof.
+    intros H. unfold cstep. assert (L <? S (c_n st) = true) as -> by (apply Nat.ltb_lt; lia).
+    destruct st as [n fl]. cbn. repeat f_equal. lia.
+  Qed.
+
+  Lemma within_limit_admitted st q : c_n st + 1 <= L ->
+    cstep L st (Arrive q) = Some (mkC (S (c_n st)) (q :: c_fl st), [OAdmitted q]).
+  Proof.
+    intros H. unfold cstep. assert (L <? S (c_n st) = false) as -> by (apply Nat.ltb_ge; lia). reflexivity.
+  Qed.
+
+  (* bookkeeping: arrivals = refused + answered + still running, per query *)
+  Definition n_arrive (q : nat) (evs : list cev) : nat :=
+    length (filter (fun e => match e with Arrive x => Nat.eqb x q | _ => false end) evs).
+  Definition n_refused (q : nat) (outs : list cout) : nat :=
+    length (filter (fun o => match o with ORefused x => Nat.eqb x q | _ => false end) outs).
+  Definition n_answer (q : nat) (outs : list cout) : nat :=
+    length (filter (fun o => match o with OAnswer x => Nat.eqb x q | _ => false end) outs).
+
+  Lemma cstep_account q st e st' o : cstep L st e = Some (st', o) ->
+    count_nat q (c_fl st) + n_arrive q [e] = n_refused q o + n_answer q o + count_nat q (c_fl st').
+  Proof.
+    unfold cstep, n_arrive, n_refused, n_answer. destruct e as [x|x].
+    - destruct (L <? S (c_n st)); intros X; inversion X; subst; cbn; destruct (Nat.eqb x q); cbn; lia.
+    - destruct (0 <? count_nat x (c_fl st)) eqn:E; [|discriminate]. apply Nat.ltb_lt in E.
+      intros X; inversion X; subst; cbn. rewrite (count_remove_one q x _ E).
+      destruct (Nat.eqb x q) eqn:E2; cbn; [|lia]. apply Nat.eqb_eq in E2. subst. lia.
+  Qed.
+
+  Lemma crun_account q : forall evs st st' o, crun L st evs = Some (st', o) ->
+    count_nat q (c_fl st) + n_arrive q evs = n_refused q o + n_answer q o + count_nat q (c_fl st').
+  Proof.
+    induction evs as [|e r IH]; intros st st' o; cbn [crun].
+    - intros X; inversion X; subst. cbn. lia.
+    - destruct (cstep L st e) as [[st1 o1]|] eqn:E; [|discriminate].
+      destruct (crun L st1 r) as [[st2 o2]|] eqn:E2; [|discriminate].
+      intros X; inversion X; subst.
+      pose proof (cstep_account q _ _ _ _ E) as A1. pose proof (IH _ _ _ E2) as A2.
+      unfold n_arrive, n_refused, n_answer in *. rewrite !filter_app, !app_length.
+      change (e :: r) with ([e] ++ r). rewrite filter_app, app_length. lia.
+  Qed.
+End Counter.
